@@ -285,6 +285,11 @@ def run_batch(hexe, dexe, cases, wdir, tag, dump_limit=4000):
         fd = ex.submit(stream.run_lines, dexe, lines, 1500)
         rc1, o1, e1 = fh.result()
         rc2, o2, e2 = fd.result()
+    for c in cases:     # the record files are regenerated on demand (case_data); keep the disk footprint small
+        try:
+            os.unlink(c["_path"])
+        except OSError:
+            pass
     return lines, (rc1, o1, e1), (rc2, o2, e2)
 
 
